@@ -1112,7 +1112,7 @@ def compile_script(script: str) -> bytes:
     symbols = get_symbols(script)
     return assemble(symbols, macros=macros)
 
-def parse_comptime(symbols: list[str], macros: dict = {}) -> list[str]:
+def parse_comptime(symbols: list[str], macros: dict = None) -> list[str]:
     """Preparses a list of symbols, replacing any comptime blocks with
         the compiled byte code of the block as a hex value symbol or the
         top stack item as a hex value symbol by compiling and executing
@@ -1121,6 +1121,7 @@ def parse_comptime(symbols: list[str], macros: dict = {}) -> list[str]:
         within the comptime block will be accessible outside of it, and
         macros defined outside a comptime block can be invoked within it.
     """
+    macros = {} if macros is None else macros
     new_symbols = []
     index = 0
 
@@ -1149,10 +1150,11 @@ def parse_comptime(symbols: list[str], macros: dict = {}) -> list[str]:
 
     return new_symbols
 
-def assemble(symbols: list[str], macros: dict = {}) -> bytes:
+def assemble(symbols: list[str], macros: dict = None) -> bytes:
     """Assemble the symbols into bytecode. Raises SyntaxError and
         ValueError for invalid syntax or values.
     """
+    macros = {} if macros is None else macros
     index = 0
     code = []
     symbols = parse_comptime(symbols, macros)
